@@ -565,3 +565,180 @@ Proof.
   destruct (sparse_rec_spec _ _ _ _ eq_refl Hnd' Htags H) as [_ P]. apply (P (to_Z sel) d); [|reflexivity].
   apply Hd; [apply to_Z_range|exact Hl].
 Qed.
+
+(* ---------- select ---------- *)
+Theorem select_spec : forall s t f,
+  to_Z (select s t f) = (if s then to_Z t else to_Z f) /\
+  length (select s t f) = Nat.max (length f) (length t).
+Proof. intros s t f. split; [apply to_Z_select|apply length_select]. Qed.
+
+(* ---------- enum_mux ---------- *)
+Definition enum_vals (table : list (option Z * wire)) : list (Z * wire) :=
+  flat_map (fun kv => match fst kv with Some k => [(k, snd kv)] | None => [] end) table.
+
+Definition enum_default (table : list (option Z * wire)) (dflt : option wire) : option wire :=
+  match map snd (filter (fun kv => match fst kv with None => true | _ => false end) table) with
+  | o :: _ => Some o
+  | [] => dflt
+  end.
+
+(* enum_mux is sparse_mux on the table's integer keys, with `otherwise` / default
+   as the sparse default (never both); strict tables must list every member *)
+Theorem enum_mux_spec : forall cntrl members table dflt strict r,
+  enum_mux cntrl members table dflt strict = Some r ->
+  sparse_mux cntrl (enum_vals table) (enum_default table dflt) = Some r /\
+  (enum_default table dflt = dflt \/ dflt = None) /\
+  (strict = true -> enum_default table dflt = None ->
+   forall m, In m members -> lookup m (enum_vals table) <> None).
+Proof.
+  intros cntrl members table dflt strict r H. unfold enum_mux in H.
+  fold (enum_vals table) in H. unfold enum_default.
+  set (ow := map snd (filter (fun kv : option Z * wire => match fst kv with None => true | _ => false end) table)) in *.
+  assert (Hcore : forall d,
+    match enum_vals table with
+    | [] => None
+    | _ :: _ =>
+      if strict && match d with Some _ => false | None => true end &&
+         match filter (fun m => match lookup m (enum_vals table) with Some _ => false | None => true end) members with
+         | [] => false | _ :: _ => true end
+      then None else sparse_mux cntrl (enum_vals table) d
+    end = Some r ->
+    sparse_mux cntrl (enum_vals table) d = Some r /\
+    (strict = true -> d = None -> forall m, In m members -> lookup m (enum_vals table) <> None)).
+  { intros d Hd. destruct (enum_vals table) as [|v0 vs] eqn:Ev; [discriminate|].
+    destruct (filter _ members) as [|m0 ms] eqn:Em.
+    - rewrite andb_false_r in Hd. split; [exact Hd|]. intros _ _ m Hm Hl.
+      assert (Hin : In m (filter (fun m => match lookup m (v0 :: vs) with Some _ => false | None => true end) members)).
+      { apply filter_In. split; [exact Hm|]. rewrite Hl. reflexivity. }
+      rewrite Em in Hin. destruct Hin.
+    - rewrite andb_true_r in Hd. destruct strict; cbn [andb] in Hd.
+      + destruct d; [|discriminate]. split; [exact Hd|]. intros _ E. discriminate.
+      + split; [exact Hd|]. intros E. discriminate. }
+  destruct ow as [|o ows].
+  - destruct dflt as [d|]; [apply (Hcore (Some d)) in H|apply (Hcore None) in H];
+      destruct H as [H1 H2]; (split; [exact H1|split; [left; reflexivity|exact H2]]).
+  - destruct dflt as [d|]; [discriminate|]. apply (Hcore (Some o)) in H. destruct H as [H1 H2].
+    split; [exact H1|]. split; [right; reflexivity|exact H2].
+Qed.
+
+(* ---------- MultiSelector ---------- *)
+Definition ms_col (opts : list (option Z * list wire)) (w : nat) (j : nat) : list (option Z * wire) :=
+  map (fun o => (fst o, as_wires_to w (nth j (snd o) (mkW None [])))) opts.
+
+Definition ms_vals (opts : list (option Z * list wire)) (w j : nat) : list (Z * wire) :=
+  enum_vals (ms_col opts w j).
+
+Definition ms_dflt (opts : list (option Z * list wire)) (w j : nat) : option wire :=
+  match filter (fun kv : option Z * wire => match fst kv with None => true | _ => false end) (ms_col opts w j) with
+  | kv :: _ => Some (snd kv)
+  | [] => None
+  end.
+
+Lemma dup_keys_NoDup l : dup_keys l = false -> NoDup l.
+Proof.
+  induction l as [|k r IH]; cbn [dup_keys]; intros H; [constructor|].
+  apply orb_false_iff in H. destruct H as [H1 H2]. constructor; [|apply IH; exact H2].
+  intro Hin. assert (existsb (Z.eqb k) r = true); [|congruence].
+  apply existsb_exists. exists k. split; [exact Hin|apply Z.eqb_refl].
+Qed.
+
+Lemma all_some_map' {A} (l : list (option A)) r : all_some l = Some r -> l = map Some r.
+Proof.
+  revert r. induction l as [|[x|] l IH]; intros r H; cbn [all_some] in H.
+  - injection H as <-. reflexivity.
+  - destruct (all_some l) as [r'|]; [|discriminate]. injection H as <-. cbn [map]. f_equal. apply IH. reflexivity.
+  - discriminate.
+Qed.
+
+Lemma ms_vals_keys opts w j :
+  map fst (ms_vals opts w j) = flat_map (fun o => match fst o with Some k => [k] | None => [] end) opts.
+Proof.
+  unfold ms_vals, enum_vals, ms_col. induction opts as [|[[k|] data] r IH]; [reflexivity| |].
+  - cbn [map flat_map fst snd app]. f_equal. exact IH.
+  - cbn [map flat_map fst snd app]. exact IH.
+Qed.
+
+Theorem multiselector_unfold : forall sel dws opts rs,
+  multiselector sel dws opts = Some rs ->
+  length rs = length dws /\
+  (forall j w, NoDup (map fst (ms_vals opts w j))) /\
+  (forall j, (j < length dws)%nat ->
+     exists r, sparse_mux sel (ms_vals opts (nth j dws 0%nat) j) (ms_dflt opts (nth j dws 0%nat) j) = Some r /\
+               nth j rs [] = resize (nth j dws 0%nat) (wbits r)).
+Proof.
+  intros sel dws opts rs H. unfold multiselector in H.
+  destruct (dup_keys _) eqn:Ed; [discriminate|]. apply dup_keys_NoDup in Ed.
+  destruct (forallb _ opts) eqn:Ef; cbn [negb] in H; [|discriminate].
+  apply all_some_map' in H.
+  assert (Hl : length rs = length dws).
+  { apply (f_equal (@length _)) in H. rewrite !map_length, seq_length in H. lia. }
+  split; [exact Hl|]. split; [intros j w; rewrite ms_vals_keys; exact Ed|].
+  intros j Hj.
+  unfold bits in *.
+  assert (Hn : nth j (map Some rs) None = nth j (map (@Some (list bool)) rs) (Some (@nil bool))).
+  { apply nth_indep. rewrite map_length. lia. }
+  rewrite (map_nth (@Some (list bool)) rs (@nil bool) j) in Hn. rewrite <- H in Hn.
+  rewrite nth_map_seq in Hn by exact Hj.
+  fold (ms_col opts (nth j dws 0%nat) j) in Hn.
+  fold (enum_vals (ms_col opts (nth j dws 0%nat) j)) in Hn.
+  fold (ms_vals opts (nth j dws 0%nat) j) in Hn. fold (ms_dflt opts (nth j dws 0%nat) j) in Hn.
+  destruct (sparse_mux sel (ms_vals opts (nth j dws 0%nat) j) (ms_dflt opts (nth j dws 0%nat) j)) as [r|];
+    [|discriminate].
+  exists r. split; [reflexivity|]. injection Hn as Hn. symmetry. exact Hn.
+Qed.
+
+Lemma to_Z_firstn n l : (n <= length l)%nat -> to_Z (firstn n l) = to_Z l mod 2 ^ Z.of_nat n.
+Proof.
+  intros H. rewrite <- (firstn_skipn n l) at 2. rewrite to_Z_app.
+  rewrite firstn_length, Nat.min_l by exact H.
+  pose proof (to_Z_range (firstn n l)) as Hr. rewrite firstn_length, Nat.min_l in Hr by exact H.
+  rewrite Z.mul_comm, Z_mod_plus_full. symmetry. apply Z.mod_small. exact Hr.
+Qed.
+
+Lemma to_Z_resize n l : to_Z (resize n l) = to_Z l mod 2 ^ Z.of_nat n.
+Proof.
+  unfold resize. rewrite to_Z_firstn by (rewrite length_zext; lia). rewrite to_Z_zext. reflexivity.
+Qed.
+
+Lemma to_Z_as_wires_to w x : to_Z (wbits (as_wires_to w x)) = to_Z (wbits x) mod 2 ^ Z.of_nat w.
+Proof.
+  unfold as_wires_to. destruct (Nat.eqb (length (wbits x)) w) eqn:E.
+  - apply Nat.eqb_eq in E. symmetry. apply Z.mod_small. rewrite <- E. apply to_Z_range.
+  - cbn [wbits]. apply to_Z_resize.
+Qed.
+
+(* MultiSelector: when the select equals an option's value, destination j
+   receives that option's j-th data signal (as a dw-bit value); otherwise the
+   default's data when a default was given *)
+Theorem multiselector_option : forall sel dws opts rs j k data,
+  multiselector sel dws opts = Some rs ->
+  (j < length dws)%nat ->
+  tags_ok (sparse_fill (length sel) (ms_vals opts (nth j dws 0%nat) j) (ms_dflt opts (nth j dws 0%nat) j)) ->
+  In (Some k, data) opts -> to_Z sel = k ->
+  to_Z (nth j rs []) = to_Z (wbits (nth j data (mkW None []))) mod 2 ^ Z.of_nat (nth j dws 0%nat).
+Proof.
+  intros sel dws opts rs j k data H Hj Htags Hin Hk.
+  destruct (multiselector_unfold _ _ _ _ H) as (_ & Hnd & Hall).
+  destruct (Hall j Hj) as (r & Hs & Hr). rewrite Hr, to_Z_resize.
+  set (w := nth j dws 0%nat) in *.
+  assert (Hv : In (k, as_wires_to w (nth j data (mkW None []))) (ms_vals opts w j)).
+  { unfold ms_vals, enum_vals, ms_col. apply in_flat_map.
+    exists (Some k, as_wires_to w (nth j data (mkW None []))). split; [|left; reflexivity].
+    apply in_map_iff. exists (Some k, data). split; [reflexivity|exact Hin]. }
+  rewrite (sparse_mux_listed _ _ _ _ _ _ (Hnd j w) Htags Hs Hv Hk).
+  rewrite to_Z_as_wires_to. apply Z.mod_mod. pose proof (pow2_pos (Z.of_nat w)). lia.
+Qed.
+
+Theorem multiselector_default : forall sel dws opts rs j d,
+  multiselector sel dws opts = Some rs ->
+  (j < length dws)%nat ->
+  ms_dflt opts (nth j dws 0%nat) j = Some d ->
+  tags_ok (sparse_fill (length sel) (ms_vals opts (nth j dws 0%nat) j) (Some d)) ->
+  lookup (to_Z sel) (ms_vals opts (nth j dws 0%nat) j) = None ->
+  to_Z (nth j rs []) = to_Z (wbits d) mod 2 ^ Z.of_nat (nth j dws 0%nat).
+Proof.
+  intros sel dws opts rs j d H Hj Hd Htags Hl.
+  destruct (multiselector_unfold _ _ _ _ H) as (_ & Hnd & Hall).
+  destruct (Hall j Hj) as (r & Hs & Hr). rewrite Hr, to_Z_resize. rewrite Hd in Hs.
+  rewrite (sparse_mux_default _ _ _ _ (Hnd j _) Htags Hs Hl). reflexivity.
+Qed.
